@@ -150,7 +150,11 @@ def floatDispatch (W : Nat) (op : String) (args : List String) : Option String :
     pure (flag (fparseRes (fromStrNative W b s)) (fparseRes (parseFloatSpec b s)) false)
   | "f.fmt", [k, p, w, fl, a] => do
     let p ← optNat p; let w ← optNat w; let a ← parseFArg a
-    let f : FmtSpec := { plus := fl = "+", width := w }
+    let has (c : Char) : Bool := fl.toList.contains c
+    let f : FmtSpec := { plus := has '+', width := w, zero := has '0',
+                         fill := if has '*' then [42] else [32],
+                         align := if has '<' then some .left else if has '^' then some .center
+                                  else if has '>' then some .right else none }
     match k with
     | "disp" =>
       let m := natBytesToStr (fmtRound a.base a.mode f p a.repr)
@@ -159,7 +163,13 @@ def floatDispatch (W : Nat) (op : String) (args : List String) : Option String :
       else pure ("ok " ++ m)
     | "lexp" => pure ("ok " ++ natBytesToStr (fmtSci a.base a.mode f p false a.repr))
     | "uexp" => pure ("ok " ++ natBytesToStr (fmtSci a.base a.mode f p true a.repr))
-    | _ => none
+    | "dbg" => pure ("ok " ++ natBytesToStr (debugFBig W a.base a.mode false a.repr a.prec))
+    | "dbga" => pure ("ok " ++ natBytesToStr (debugFBig W a.base a.mode true a.repr a.prec))
+    | "rdbg" => pure ("ok " ++ natBytesToStr (debugRepr W a.base false a.repr))
+    | "rdbga" => pure ("ok " ++ natBytesToStr (debugRepr W a.base true a.repr))
+    | _ => match fmtRadixTrait a.base a.mode f p k a.repr with
+      | some t => pure ("ok " ++ natBytesToStr t)
+      | none => none
   | "f.rt", [a] => do
     let a ← parseFArg a
     let text := fmtRound a.base a.mode {} none a.repr
